@@ -624,6 +624,7 @@ def run(chk):
                 if s.stream not in seen:
                     seen.add(s.stream)
                     chk.sample(dict(stream=s.stream, case=s.line()[:500], model=m[:400], impl=il[:400]), limit=8)
+            race_stream(chk, binary)
             try:
                 chk.cov["vm_compute_crosschecked"] = coq_crosscheck(chk, mls, mo)
             except Exception as ex:
@@ -632,6 +633,25 @@ def run(chk):
             import traceback
             chk.infra_errors.append("correspondence run failed: %r %s" % (ex, traceback.format_exc()[-800:]))
     chk.finish(search=search)
+
+
+def race_stream(chk, binary):
+    """Producers released at the SAME virtual instant race for the last free slots (the runtime
+    interleaves them for real on 2 Ps), no consumer, then the close channel is closed: every send
+    must return. Monitor only (theorem: tq_send_after_close_never_blocks)."""
+    quick = chk.tier == "quick"
+    trials = 10000 if quick else 60000
+    cfgs = [(1, 8, 1, "cb"), (4, 16, 2, "cb")] if quick else [(1, 8, 1, "cb"), (2, 4, 1, "task"), (4, 16, 2, "cb"), (2, 2, 1, "cb"), (8, 12, 3, "task")]
+    cases = ["c09race size=%d prods=%d free=%d trials=%d kind=%s" % (s_, p_, f_, trials, k_) for s_, p_, f_, k_ in cfgs]
+    outs = fttaskx.run(binary, cases)
+    for c, o in zip(cases, outs):
+        chk.count_case("simultaneous-producers-then-close", c, True)
+        m = re.match(r"trials=(\d+) stuck=(\d+) first=(-?\d+) maxlen=(\d+)$", o)
+        if not m:
+            chk.monitor_fail("crash", c, o[:300], "race scenario gave no result")
+        elif int(m.group(2)) > 0:
+            chk.monitor_fail("blocks-after-close", c, o, "%s of %s trials: a send that raced for the last free slot was still blocked 1 ms (virtual) after the close channel was closed (first: trial %s)" % (m.group(2), m.group(1), m.group(3)))
+    chk.sample(dict(stream="simultaneous-producers-then-close", case=cases[0], impl=outs[0]), limit=9)
 
 
 def search(chk):
